@@ -383,7 +383,8 @@ theorem lfLoop_ok {pool : List UTxO} (hp : ∀ u ∈ pool, Value.WF u.amount) (t
         obtain ⟨h1, h2, ext, h3, h4⟩ := ih _ _ _ hinv' h
         exact ⟨h1, h2, u :: ext, by simp [h3], by simp [h4]⟩
 
-theorem lfLoop_limit (total : Value) (l : Int) (hl : l ≠ 0) :
+/-- the loop appends, then tests `len(selected) > max_input_count`: it never returns more than `l` inputs -/
+theorem lfLoop_limit (total : Value) (l : Int) :
     ∀ (avail sel : List UTxO) (amt : Value) (s : LfState), lfLoop total (some l) avail sel amt = .ok s →
       (sel.length : Int) ≤ l → (s.sel.length : Int) ≤ l := by
   intro avail
@@ -403,10 +404,14 @@ theorem lfLoop_limit (total : Value) (l : Int) (hl : l ≠ 0) :
       · cases h
       · next hov =>
         apply ih _ _ _ h
-        simp only [overTruthy, Bool.and_eq_true, bne_iff_ne, ne_eq, decide_eq_true_eq, not_and] at hov
-        have := hov hl
+        simp only [overLimit, decide_eq_true_eq] at hov
         simp only [List.length_append, List.length_cons, List.length_nil]
         omega
+
+theorem lfBase_limit (fee : Int) (pool : List UTxO) (outputs : List Output) (l : Int) (hl : 0 ≤ l) (s : LfState)
+    (h : lfBase fee pool outputs (some l) = .ok s) : (s.sel.length : Int) ≤ l := by
+  unfold lfBase at h
+  exact lfLoop_limit _ l _ _ _ _ h (by simpa using hl)
 
 theorem lfLoop_insufficient (total : Value) (limit : Option Int) :
     ∀ (avail sel : List UTxO) (amt : Value), lfLoop total limit avail sel amt = .error .insufficient →
@@ -504,14 +509,12 @@ theorem lfSelect_ok {nn : Prop} {pool : List UTxO} (hp : PoolN nn pool) (hn : (p
           · cases h; exact good_plain hinv hcov hp ht
       · cases h; exact good_plain hinv hcov hp ht
 
-/-- the input limit holds unless the first phase ended exactly at the limit and the min-change top-up (called
-with the falsy limit 0) added inputs -/
-theorem lfSelect_limit (env : Env) (pool : List UTxO) (outputs : List Output) (l : Int) (hl : 0 < l)
+/-- `LargestFirstSelector.select` never returns more inputs than the limit, the min-change top-up included: the
+top-up is given the remaining budget `l - len(selected)` (≥ 0) and keeps to it -/
+theorem lfSelect_limit (env : Env) (pool : List UTxO) (outputs : List Output) (l : Int) (hl : 0 ≤ l)
     (includeFee respectMin : Bool) (sel : List UTxO) (change : Value)
     (h : lfSelect env pool outputs (some l) includeFee respectMin = .ok (sel, change)) :
-    (sel.length : Int) ≤ l ∨
-    (respectMin = true ∧ ∃ f s, feeOf env includeFee = some f ∧ lfBase f pool outputs (some l) = .ok s ∧
-      (s.sel.length : Int) = l ∧ s.sel.length < sel.length) := by
+    (sel.length : Int) ≤ l := by
   unfold lfSelect at h
   cases hf : feeOf env includeFee with
   | none => simp [hf] at h
@@ -521,31 +524,20 @@ theorem lfSelect_limit (env : Env) (pool : List UTxO) (outputs : List Output) (l
     | error e => simp [hb] at h
     | ok s =>
       simp only [hb] at h
-      have h1 : (s.sel.length : Int) ≤ l := by
-        have := lfLoop_limit _ l (by omega) _ _ _ _ hb (by simp; omega)
-        exact this
+      have h1 : (s.sel.length : Int) ≤ l := lfBase_limit f pool outputs l hl s hb
       split at h
-      · next hmin =>
-        split at h
+      · split at h
         · cases h
         · split at h
           · split at h
             · cases h
             · next mc _ s2 hb2 =>
               cases h
-              by_cases heq : (s.sel.length : Int) = l
-              · by_cases h2 : s2.sel.length = 0
-                · left; simp only [List.length_append, h2]; omega
-                · right
-                  exact ⟨hmin, f, s, rfl, hb, heq, by simp only [List.length_append]; omega⟩
-              · left
-                have hlim : topUpLimit (some l) s.sel.length = some (l - (s.sel.length : Int)) := by
-                  simp only [topUpLimit]; rw [if_neg (by omega)]
-                rw [hlim] at hb2
-                have := lfLoop_limit _ (l - (s.sel.length : Int)) (by omega) _ _ _ _ hb2 (by simp; omega)
-                simp only [List.length_append]; omega
-          · cases h; left; exact h1
-      · cases h; left; exact h1
+              simp only [topUpLimit] at hb2
+              have := lfBase_limit _ _ _ (l - (s.sel.length : Int)) (by omega) s2 hb2
+              simp only [List.length_append]; omega
+          · cases h; exact h1
+      · cases h; exact h1
 
 theorem sum_nonneg_list : ∀ (l : List Int), (∀ x ∈ l, 0 ≤ x) → 0 ≤ l.sum
   | [], _ => by simp
@@ -772,7 +764,7 @@ theorem phase1_ok {nn : Prop} {pool : List UTxO} (hp : PoolN nn pool) (limit : O
 theorem improveStep_next {limit : Option Int} {ideal upper : Value} {rem sel : List UTxO} {amt : Value}
     {st st' : List Nat} {i : Nat} {u : UTxO} {take : Bool}
     (h : improveStep limit ideal upper rem sel amt st = .next i u take st') :
-    rem[i]? = some u ∧ overNotNone limit sel.length = false := by
+    rem[i]? = some u ∧ atLimit limit sel.length = false := by
   unfold improveStep at h
   split at h
   · cases h
@@ -1111,8 +1103,9 @@ theorem subsetLoop_len (r : Value) : ∀ (fuel : Nat) (s s' : St), subsetLoop r 
         simp only [List.length_append, List.length_cons, List.length_nil] at this
         omega
 
-theorem phase1_limit (m : Int) (hm : m ≠ 0) : ∀ (rs : List Value) (s s' : St),
-    phase1 (some m) rs s = .ok s' → (s.sel.length : Int) ≤ m + 1 → (s'.sel.length : Int) ≤ m + 1 := by
+/-- phase 1 tests `len(selected) > max_input_count` after each asset's subset: it ends with at most `m` inputs -/
+theorem phase1_limit (m : Int) : ∀ (rs : List Value) (s s' : St),
+    phase1 (some m) rs s = .ok s' → (s.sel.length : Int) ≤ m → (s'.sel.length : Int) ≤ m := by
   intro rs
   induction rs with
   | nil => intro s s' h hl; simp only [phase1] at h; cases h; exact hl
@@ -1126,13 +1119,13 @@ theorem phase1_limit (m : Int) (hm : m ≠ 0) : ∀ (rs : List Value) (s s' : St
       · cases h
       · next hov =>
         apply ih _ _ h
-        simp only [overTruthy, Bool.and_eq_true, bne_iff_ne, ne_eq, decide_eq_true_eq, not_and] at hov
-        have := hov hm
+        simp only [overLimit, decide_eq_true_eq] at hov
         omega
 
+/-- `_improve` returns before appending when `len(selected) >= max_input_count`: it never goes past `m` -/
 theorem improve_limit (m : Int) (ideal upper : Value) : ∀ (fuel : Nat) (rem sel : List UTxO) (amt : Value)
-    (st : List Nat), (sel.length : Int) ≤ m + 1 →
-    ((improve (some m) ideal upper fuel rem sel amt st).sel.length : Int) ≤ m + 1 := by
+    (st : List Nat), (sel.length : Int) ≤ m →
+    ((improve (some m) ideal upper fuel rem sel amt st).sel.length : Int) ≤ m := by
   intro fuel
   induction fuel with
   | zero => intro rem sel amt st h; simpa [improve] using h
@@ -1143,7 +1136,7 @@ theorem improve_limit (m : Int) (ideal upper : Value) : ∀ (fuel : Nat) (rem se
     · exact hl
     · next i u take st' hs =>
       have hov := (improveStep_next hs).2
-      simp only [overNotNone, decide_eq_false_iff_not] at hov
+      simp only [atLimit, decide_eq_false_iff_not] at hov
       split
       · apply ih
         simp only [List.length_append, List.length_cons, List.length_nil]
@@ -1151,7 +1144,7 @@ theorem improve_limit (m : Int) (ideal upper : Value) : ∀ (fuel : Nat) (rem se
       · exact ih _ _ _ _ hl
 
 theorem phase2_limit (m : Int) : ∀ (rs : List Value) (s s' : St),
-    phase2 (some m) rs s = .ok s' → (s.sel.length : Int) ≤ m + 1 → (s'.sel.length : Int) ≤ m + 1 := by
+    phase2 (some m) rs s = .ok s' → (s.sel.length : Int) ≤ m → (s'.sel.length : Int) ≤ m := by
   intro rs
   induction rs with
   | nil => intro s s' h hl; simp only [phase2] at h; cases h; exact hl
@@ -1163,26 +1156,24 @@ theorem phase2_limit (m : Int) : ∀ (rs : List Value) (s s' : St),
     · cases h
     · exact ih _ _ h (improve_limit m _ _ _ _ _ _ _ hl)
 
-theorem riBase_limit (fee : Int) (pool : List UTxO) (outputs : List Output) (m : Int) (hm : m ≠ 0)
-    (hm1 : -1 ≤ m) (stream : List Nat) (s : St) (h : riBase fee pool outputs (some m) stream = .ok s) :
-    (s.sel.length : Int) ≤ m + 1 := by
+/-- both phases together keep to a limit `m ≥ 0` -/
+theorem riBase_limit (fee : Int) (pool : List UTxO) (outputs : List Output) (m : Int) (hm : 0 ≤ m)
+    (stream : List Nat) (s : St) (h : riBase fee pool outputs (some m) stream = .ok s) :
+    (s.sel.length : Int) ≤ m := by
   unfold riBase at h
   simp only at h
   split at h
   · cases h
   · next s1 h1 =>
-    have := phase1_limit m hm _ _ _ h1 (by simp; omega)
+    have := phase1_limit m _ _ _ h1 (by simpa using hm)
     exact phase2_limit m _ _ _ h this
 
-/-- the input limit is exceeded by at most one input (`_improve` tests `len(selected) > max_input_count` before it
-appends) unless the first two phases ended with exactly `l` inputs and the min-change top-up — called with the
-falsy limit 0 — added more -/
-theorem riSelect_limit (env : Env) (pool : List UTxO) (outputs : List Output) (l : Int) (hl : 0 < l)
+/-- `RandomImproveMultiAsset.select` never returns more inputs than the limit, whatever the random choices, the
+min-change top-up included: the recursive call is given the remaining budget `l - len(selected)` (≥ 0) -/
+theorem riSelect_limit (env : Env) (pool : List UTxO) (outputs : List Output) (l : Int) (hl : 0 ≤ l)
     (includeFee respectMin : Bool) (stream : List Nat) (sel : List UTxO) (change : Value)
     (h : riSelect env pool outputs (some l) includeFee respectMin stream = .ok (sel, change)) :
-    (sel.length : Int) ≤ l + 1 ∨
-    (respectMin = true ∧ ∃ f s, feeOf env includeFee = some f ∧ riBase f pool outputs (some l) stream = .ok s ∧
-      (s.sel.length : Int) = l ∧ s.sel.length < sel.length) := by
+    (sel.length : Int) ≤ l := by
   unfold riSelect at h
   cases hf : feeOf env includeFee with
   | none => simp [hf] at h
@@ -1192,28 +1183,19 @@ theorem riSelect_limit (env : Env) (pool : List UTxO) (outputs : List Output) (l
     | error e => simp [hb] at h
     | ok s =>
       simp only [hb] at h
-      have h1 : (s.sel.length : Int) ≤ l + 1 := riBase_limit f pool outputs l (by omega) (by omega) stream s hb
+      have h1 : (s.sel.length : Int) ≤ l := riBase_limit f pool outputs l hl stream s hb
       split at h
-      · next hmin =>
-        split at h
+      · split at h
         · cases h
         · split at h
           · split at h
             · cases h
             · next mc _ s2 hb2 =>
               cases h
-              by_cases heq : (s.sel.length : Int) = l
-              · by_cases h2 : s2.sel.length = 0
-                · left; simp only [List.length_append, h2]; omega
-                · right
-                  exact ⟨hmin, f, s, rfl, hb, heq, by simp only [List.length_append]; omega⟩
-              · left
-                have hlim : topUpLimit (some l) s.sel.length = some (l - (s.sel.length : Int)) := by
-                  simp only [topUpLimit]; rw [if_neg (by omega)]
-                rw [hlim] at hb2
-                have := riBase_limit _ _ _ (l - (s.sel.length : Int)) (by omega) (by omega) _ _ hb2
-                simp only [List.length_append]; omega
-          · cases h; left; exact h1
-      · cases h; left; exact h1
+              simp only [topUpLimit] at hb2
+              have := riBase_limit _ _ _ (l - (s.sel.length : Int)) (by omega) _ _ hb2
+              simp only [List.length_append]; omega
+          · cases h; exact h1
+      · cases h; exact h1
 
 end Pyc.CoinSel
